@@ -15,7 +15,7 @@ FNS = ['ModuleGraph::walk', 'ModuleEntryIterator::new', 'ModuleEntryIterator::ne
 def cubes(tier, has_fc):
     """partition of the option space (each cube is still fully symbolic in the graph state)"""
     out = []
-    sizes = [(3, 1, 1)] if tier == 'quick' else [(3, 2, 1), (4, 1, 1)]
+    sizes = [(3, 1, 1)] if tier == 'quick' else [(4, 2, 1), (5, 1, 0)]
     for (N, D, I) in sizes:
         for kind in range(3):
             for fd in (False, True):
